@@ -327,8 +327,10 @@ impl DBM {
             params![available_slots, tower_id.to_vec()],
         )?;
         // An accepted appointment is not pending any more. Drop the pending reference (if any) in this very transaction,
-        // so the appointment is never recorded as both (nor as neither) if we are stopped half-way.
-        Self::delete_pending_reference(&tx, tower_id, locator)?;
+        // so the appointment is never recorded as both (nor as neither) if we are stopped half-way. The same goes for an
+        // invalid reference: the tower may have rejected the appointment before (e.g. a request that raced with this one).
+        Self::delete_reference(&tx, "pending_appointments", tower_id, locator)?;
+        Self::delete_reference(&tx, "invalid_appointments", tower_id, locator)?;
         #[cfg(feature = "verif")]
         teos_common::verif::crash_point("client::store_appointment_receipt:before_commit");
         #[cfg(feature = "verif")]
@@ -536,15 +538,17 @@ impl DBM {
         tx.commit()
     }
 
-    /// Removes the pending reference of a tower to an appointment (if there is one) as part of an ongoing transaction.
+    /// Removes the pending (or invalid) reference of a tower to an appointment (if there is one) as part of an ongoing
+    /// transaction. `table` is either `pending_appointments` or `invalid_appointments`.
     /// The appointment data is removed alongside if nobody else (pending or invalid) references it anymore.
-    fn delete_pending_reference(
+    fn delete_reference(
         tx: &rusqlite::Transaction,
+        table: &str,
         tower_id: TowerId,
         locator: Locator,
     ) -> Result<(), SqliteError> {
         let deleted = tx.execute(
-            "DELETE FROM pending_appointments WHERE locator=?1 AND tower_id=?2",
+            &format!("DELETE FROM {table} WHERE locator=?1 AND tower_id=?2"),
             params![locator.to_vec(), tower_id.to_vec()],
         )?;
         if deleted > 0 {
@@ -578,7 +582,7 @@ impl DBM {
             params![appointment.locator.to_vec(), tower_id.to_vec(),],
         )?;
         // Same as for accepted appointments: an invalid appointment is not pending any more.
-        Self::delete_pending_reference(&tx, tower_id, appointment.locator)?;
+        Self::delete_reference(&tx, "pending_appointments", tower_id, appointment.locator)?;
 
         #[cfg(feature = "verif")]
         teos_common::verif::crash_point("client::store_invalid_appointment:before_commit");
